@@ -4,9 +4,11 @@ import GqlProofs.Validate.NoPanic
 import GqlProofs.Validate.RuleFuel
 import GqlProofs.Validate.OpEvents
 import GqlProofs.Validate.Witness
+import GqlProofs.Validate.OverlapSafe
+import GqlProofs.Validate.OverlapWitness
 /-
   C02 — validation never crashes and terminates (the part that concerns `validator.Validate`
-  and all rules except OverlappingFieldsCanBeMerged).
+  and the rules; OverlappingFieldsCanBeMerged — the repaired algorithm — is at the end).
 
   The model `validate` has three outcomes: `ok errs`, `panic msg` (a Go run-time panic or explicit
   `panic(...)`, which `Validate` does not recover) and `outOfFuel` (the bounded-recursion device
@@ -113,62 +115,6 @@ theorem C02_validate_no_panic_parsed_partial (rs : List Rule) (s : Schema) (d : 
   obtain ⟨errs, he⟩ := runAll_neverPanicsOn (s := s.view) (d := d) hev hr
   exact ⟨errs, by simp only [validate, validateV, hw, he]⟩
 
-/-- every modelled rule is KnownRootType or one of the 29 rules that never panic -/
-theorem C02_modelled_rules_covered : ∀ r ∈ modelledRules, r ∈ panicFreeRules' ∨ r = knownRootType := by
-  intro r hr
-  simp only [modelledRules, List.mem_cons, List.mem_nil_iff, or_false] at hr
-  -- (membership by position in `panicFreeRules'`: no equality test between rules is needed)
-  rcases hr with h | h | h | h | h | h | h | h | h | h | h | h | h | h | h | h | h | h | h | h | h | h | h | h | h | h | h | h | h | h <;> subst h
-  · exact Or.inl (List.mem_of_getElem? (i := 0) rfl)
-  · exact Or.inl (List.mem_of_getElem? (i := 1) rfl)
-  · exact Or.inl (List.mem_of_getElem? (i := 2) rfl)
-  · exact Or.inl (List.mem_of_getElem? (i := 3) rfl)
-  · exact Or.inl (List.mem_of_getElem? (i := 4) rfl)
-  · exact Or.inr rfl
-  · exact Or.inl (List.mem_of_getElem? (i := 5) rfl)
-  · exact Or.inl (List.mem_of_getElem? (i := 6) rfl)
-  · exact Or.inl (List.mem_of_getElem? (i := 26) rfl)
-  · exact Or.inl (List.mem_of_getElem? (i := 28) rfl)
-  · exact Or.inl (List.mem_of_getElem? (i := 7) rfl)
-  · exact Or.inl (List.mem_of_getElem? (i := 8) rfl)
-  · exact Or.inl (List.mem_of_getElem? (i := 9) rfl)
-  · exact Or.inl (List.mem_of_getElem? (i := 10) rfl)
-  · exact Or.inl (List.mem_of_getElem? (i := 11) rfl)
-  · exact Or.inl (List.mem_of_getElem? (i := 12) rfl)
-  · exact Or.inl (List.mem_of_getElem? (i := 27) rfl)
-  · exact Or.inl (List.mem_of_getElem? (i := 13) rfl)
-  · exact Or.inl (List.mem_of_getElem? (i := 14) rfl)
-  · exact Or.inl (List.mem_of_getElem? (i := 15) rfl)
-  · exact Or.inl (List.mem_of_getElem? (i := 16) rfl)
-  · exact Or.inl (List.mem_of_getElem? (i := 17) rfl)
-  · exact Or.inl (List.mem_of_getElem? (i := 18) rfl)
-  · exact Or.inl (List.mem_of_getElem? (i := 24) rfl)
-  · exact Or.inl (List.mem_of_getElem? (i := 19) rfl)
-  · exact Or.inl (List.mem_of_getElem? (i := 20) rfl)
-  · exact Or.inl (List.mem_of_getElem? (i := 21) rfl)
-  · exact Or.inl (List.mem_of_getElem? (i := 22) rfl)
-  · exact Or.inl (List.mem_of_getElem? (i := 23) rfl)
-  · exact Or.inl (List.mem_of_getElem? (i := 25) rfl)
-
-/-- C02 for ALL 30 modelled rules (every default rule except OverlappingFieldsCanBeMerged, and the
-    four `…WithoutSuggestions` twins), in any selection and order, on EVERY schema: validation of a
-    document whose operation kinds are ones the parser produces returns an error list — it neither
-    panics nor runs out of fuel.  The only hypothesis is `hd` (operation kinds); it is needed for
-    KnownRootType alone. -/
-theorem C02_validate_no_panic_parsed (rs : List Rule) (s : Schema) (d : QueryDoc)
-    (hd : ∀ op ∈ d.ops, op.op ∈ parserOpKinds)
-    (h : ∀ r ∈ rs, r ∈ modelledRules) : ∃ errs, validate rs s d = .ok errs :=
-  C02_validate_no_panic_parsed_partial rs s d hd fun r hr => C02_modelled_rules_covered r (h r hr)
-
-/-- … in particular the modelled default rule set -/
-theorem C02_validate_default_no_panic_parsed (s : Schema) (d : QueryDoc)
-    (hd : ∀ op ∈ d.ops, op.op ∈ parserOpKinds) : ∃ errs, validate defaultRules s d = .ok errs := by
-  apply C02_validate_no_panic_parsed defaultRules s d hd
-  intro r hr
-  simp only [defaultRules, List.mem_filterMap] at hr
-  obtain ⟨n, _, hn⟩ := hr
-  exact List.mem_of_find?_eq_some hn
-
 /-- the hypothesis on operation kinds cannot be dropped: KnownRootType panics on a hand-built
     operation of kind `fetch` -/
 theorem C02_validate_needs_parser_op_kinds :
@@ -199,12 +145,155 @@ theorem C02_validate_default_R2a_returns :
     same rule returns normally (no error: `$v` is non-null) -/
 example : validate [valuesOfCorrectType] Witness.schema Witness.docUsed = .ok [] := by decide +kernel
 
+/- ================= OverlappingFieldsCanBeMerged (the repaired algorithm, DESIGN §7 R2d) ================= -/
+
+/-- (a) The fuel that the entry point `overlapRun` (one `findConflictsWithinSelectionSet` call of an
+    observer) hands out is never exhausted: `2·F²+2` nested `findConflict` calls (`F` = field nodes
+    of the selection set and of all fragment definitions), `K+2` frames per (E) chain and `2·K²+2`
+    frames per `check` recursion (`K` = fragment definitions) — for every schema view, document,
+    link state, selection set and every SYMMETRIC `comparedFragmentPairs` (symmetry is an invariant
+    of the rule state: it holds initially and the theorem returns it).  So the recursion of the
+    real code, which has no fuel, is well-founded on every input, cyclic fragments included. -/
+theorem C02_overlap_fuel_suffices (s : SV) (d : QueryDoc) (l : Links) (parent : Option Definition)
+    (sels : Selections) (P : Pairs) (hP : PSym P) :
+    ∃ P' cs, overlapRun s d l parent sels P = some (P', cs) ∧ PSym P' := by
+  obtain ⟨⟨P', cs⟩, h, a⟩ := overlapRun_ok s d l parent sels P hP
+  exact ⟨P', cs, h, a.1⟩
+
+/-- The key argument of (a), isolated: (1) `findConflict` at in-progress set `C` consults
+    `findConflictsBetweenSubSelectionSets` only at `C` extended by the triple of the two fields it
+    compares, and only when that triple is not in `C` (so along the recursion the set strictly
+    grows and stays duplicate-free); (2) a duplicate-free set of `(fieldA, fieldB, exclusive)`
+    triples over `F` field nodes has at most `2·F²` elements.  Hence the depth of the
+    `findConflict` recursion is at most `2·F²`. -/
+theorem C02_overlap_depth_bounded :
+    (∀ (s : SV) (sub sub' : Bool → FInfo → FInfo → Comparing → Pairs → Option (Pairs × List Conflict))
+        (excl0 : Bool) (a b : FInfo) (C : Comparing) (P : Pairs),
+        (∀ excl, (a.key, b.key, excl) ∉ C →
+          sub excl a b ((a.key, b.key, excl) :: C) P = sub' excl a b ((a.key, b.key, excl) :: C) P) →
+        findConflictBody s sub excl0 a b C P = findConflictBody s sub' excl0 a b C P) ∧
+    (∀ (U : Univ) (C : Comparing), C.Nodup → (∀ t ∈ C, t ∈ allTriples (U.map (·.1))) →
+        C.length ≤ 2 * U.length * U.length) :=
+  ⟨findConflictBody_calls_fresh, comparing_length_le⟩
+
+/-- (b) The rule model has no panic outcome: from a symmetric `comparedFragmentPairs` every observer
+    call returns an error list (and a symmetric state); and in ANY state the only non-`ok` outcome
+    the step function can produce at all is the out-of-fuel marker — there is no Go panic site left
+    in the rule (`Schema.Types[...]` is nil-guarded in `doTypesConflict`), so not even `Closed s`
+    is needed. -/
+theorem C02_overlap_no_panic (s : Schema) (d : QueryDoc) (P : Pairs) (e : Event) :
+    (PSym P → ∃ P' errs, overlappingFieldsStep s.view d P e = .ok P' errs ∧ PSym P') ∧
+    (∀ m, overlappingFieldsStep s.view d P e = .panic m → m = overlapOutOfFuel) :=
+  ⟨overlappingFieldsStep_ok s.view d P e, fun m h => overlappingFieldsStep_panic_only_fuel s.view d P e m h⟩
+
+/-- `C02_validate_no_panic_parsed_partial` with OverlappingFieldsCanBeMerged: every rule list drawn
+    from the modelled rules other than ValuesOfCorrectType (+ twin) returns an error list on every
+    schema and every document with parser-produced operation kinds — no panic, no fuel exhaustion. -/
+theorem C02_validate_no_panic_with_overlap_partial (rs : List Rule) (s : Schema) (d : QueryDoc)
+    (hd : ∀ op ∈ d.ops, op.op ∈ parserOpKinds)
+    (h : ∀ r ∈ rs, r ∈ panicFreeRules' ∨ r = knownRootType ∨ r = overlappingFieldsCanBeMerged) :
+    ∃ errs, validate rs s d = .ok errs :=
+  validateV_safe rs s.view d hd fun r hr => (h r hr).imp (panicFreeRules'_neverPanic r) id
+
+/-- non-vacuity: the rule alone, and together with all other panic-free rules, is covered -/
+example (s : Schema) (d : QueryDoc) (hd : ∀ op ∈ d.ops, op.op ∈ parserOpKinds) :
+    ∃ errs, validate (overlappingFieldsCanBeMerged :: knownRootType :: panicFreeRules') s d = .ok errs :=
+  C02_validate_no_panic_with_overlap_partial _ s d hd fun r hr => by
+    rcases List.mem_cons.1 hr with h | hr
+    · exact Or.inr (Or.inr h)
+    · rcases List.mem_cons.1 hr with h | hr
+      · exact Or.inr (Or.inl h)
+      · exact Or.inl hr
+
+/-- every modelled rule is KnownRootType, OverlappingFieldsCanBeMerged or one of the 29 rules that never panic -/
+theorem C02_modelled_rules_covered : ∀ r ∈ modelledRules,
+    r ∈ panicFreeRules' ∨ r = knownRootType ∨ r = overlappingFieldsCanBeMerged := by
+  intro r hr
+  simp only [modelledRules, List.mem_cons, List.mem_nil_iff, or_false] at hr
+  -- (membership by position in `panicFreeRules'`: no equality test between rules is needed)
+  rcases hr with h | h | h | h | h | h | h | h | h | h | h | h | h | h | h | h | h | h | h | h | h | h | h | h | h | h | h | h | h | h | h <;> subst h
+  · exact Or.inl (List.mem_of_getElem? (i := 0) rfl)
+  · exact Or.inl (List.mem_of_getElem? (i := 1) rfl)
+  · exact Or.inl (List.mem_of_getElem? (i := 2) rfl)
+  · exact Or.inl (List.mem_of_getElem? (i := 3) rfl)
+  · exact Or.inl (List.mem_of_getElem? (i := 4) rfl)
+  · exact Or.inr (Or.inl rfl)
+  · exact Or.inl (List.mem_of_getElem? (i := 5) rfl)
+  · exact Or.inl (List.mem_of_getElem? (i := 6) rfl)
+  · exact Or.inl (List.mem_of_getElem? (i := 26) rfl)
+  · exact Or.inl (List.mem_of_getElem? (i := 28) rfl)
+  · exact Or.inl (List.mem_of_getElem? (i := 7) rfl)
+  · exact Or.inl (List.mem_of_getElem? (i := 8) rfl)
+  · exact Or.inl (List.mem_of_getElem? (i := 9) rfl)
+  · exact Or.inr (Or.inr rfl)
+  · exact Or.inl (List.mem_of_getElem? (i := 10) rfl)
+  · exact Or.inl (List.mem_of_getElem? (i := 11) rfl)
+  · exact Or.inl (List.mem_of_getElem? (i := 12) rfl)
+  · exact Or.inl (List.mem_of_getElem? (i := 27) rfl)
+  · exact Or.inl (List.mem_of_getElem? (i := 13) rfl)
+  · exact Or.inl (List.mem_of_getElem? (i := 14) rfl)
+  · exact Or.inl (List.mem_of_getElem? (i := 15) rfl)
+  · exact Or.inl (List.mem_of_getElem? (i := 16) rfl)
+  · exact Or.inl (List.mem_of_getElem? (i := 17) rfl)
+  · exact Or.inl (List.mem_of_getElem? (i := 18) rfl)
+  · exact Or.inl (List.mem_of_getElem? (i := 24) rfl)
+  · exact Or.inl (List.mem_of_getElem? (i := 19) rfl)
+  · exact Or.inl (List.mem_of_getElem? (i := 20) rfl)
+  · exact Or.inl (List.mem_of_getElem? (i := 21) rfl)
+  · exact Or.inl (List.mem_of_getElem? (i := 22) rfl)
+  · exact Or.inl (List.mem_of_getElem? (i := 23) rfl)
+  · exact Or.inl (List.mem_of_getElem? (i := 25) rfl)
+
+/-- C02 for ALL 31 modelled rules (all 27 default rules, OverlappingFieldsCanBeMerged included, and the
+    four `…WithoutSuggestions` twins), in any selection and order, on EVERY schema: validation of a
+    document whose operation kinds are ones the parser produces returns an error list — it neither
+    panics nor runs out of fuel.  The only hypothesis is `hd` (operation kinds); it is needed for
+    KnownRootType alone. -/
+theorem C02_validate_no_panic_parsed (rs : List Rule) (s : Schema) (d : QueryDoc)
+    (hd : ∀ op ∈ d.ops, op.op ∈ parserOpKinds)
+    (h : ∀ r ∈ rs, r ∈ modelledRules) : ∃ errs, validate rs s d = .ok errs :=
+  C02_validate_no_panic_with_overlap_partial rs s d hd fun r hr => C02_modelled_rules_covered r (h r hr)
+
+/-- … in particular the modelled default rule set -/
+theorem C02_validate_default_no_panic_parsed (s : Schema) (d : QueryDoc)
+    (hd : ∀ op ∈ d.ops, op.op ∈ parserOpKinds) : ∃ errs, validate defaultRules s d = .ok errs := by
+  apply C02_validate_no_panic_parsed defaultRules s d hd
+  intro r hr
+  simp only [defaultRules, List.mem_filterMap] at hr
+  obtain ⟨n, _, hn⟩ := hr
+  exact List.mem_of_find?_eq_some hn
+
+/-
+  NOT a theorem (and false for the repaired code as it is): the polynomial cost bound
+      C02_overlap_ticks : ticks ≤ c · nodes(d)² · (fragments(d) + 1)²
+  of DESIGN C02.  The in-progress set only cuts cycles; a pair of fields that has been compared is
+  compared again whenever it is reached along another path.  On
+      { u { ...F } }   fragment F on Node { u { u { … u { id ...F } … ...F } ...F } }      (k levels)
+  every pair `(u_i, u_j)` is reached along exponentially many paths: the real rule needs 5 s for
+  k = 10 (151 bytes), 33 s for k = 11, 214 s for k = 12 (173 bytes), the model 0.65 s / 4.6 s / 29 s
+  (X-overlap, family `fragment-cycle-every-level`).  The depth bound above (`2·F²`) is tight for the
+  recursion DEPTH only.  The memoisation of completed `(selection set, selection set, exclusive)`
+  comparisons proposed in DESIGN C02 (b) would give the polynomial bound.
+-/
+
+/-- kernel-checked: on `{ u { ...F } } fragment F on Node { u { id ...F } ...F }` — a fragment that
+    reaches itself directly and through a field, the shape of DESIGN §7 R2d — the model of the repaired
+    rule terminates with an empty error list (the real rule agrees: X-overlap) -/
+theorem C02_overlap_cyclic_witness :
+    validate [overlappingFieldsCanBeMerged] OverlapWitness.schema OverlapWitness.docCycle = .ok [] := by
+  decide +kernel
+
 #print axioms C02_walk_terminates
 #print axioms C02_validate_fuel_suffices
 #print axioms C02_walk_events_bound
 #print axioms C02_validate_no_panic_partial
 #print axioms C02_panic_free_rule_names
 #print axioms C02_validate_no_panic_parsed_partial
+#print axioms C02_overlap_fuel_suffices
+#print axioms C02_overlap_depth_bounded
+#print axioms C02_overlap_no_panic
+#print axioms C02_validate_no_panic_with_overlap_partial
+#print axioms C02_overlap_cyclic_witness
 #print axioms C02_modelled_rules_covered
 #print axioms C02_validate_no_panic_parsed
 #print axioms C02_validate_default_no_panic_parsed
